@@ -45,7 +45,7 @@ def sh(cmd, cwd=None, env=None, timeout=None, check=True, capture=True):
 def ensure_instrument():
     exe = os.path.join(BIN, "instrument")
     src = os.path.join(TOOLS, "instrument", "main.go")
-    if not os.path.exists(exe) or os.path.getmtime(exe) < os.path.getmtime(src):
+    if not os.path.exists(exe) or os.path.getmtime(exe) < os.path.getmtime(src) or os.environ.get("VERIF_REBUILD"):
         os.makedirs(BIN, exist_ok=True)
         sh(["go", "build", "-o", exe, "."], cwd=os.path.join(TOOLS, "instrument"))
     return exe
@@ -68,7 +68,7 @@ class Scratch:
             args.append("-noshim")
         sh(args)
         self.harness = os.path.join(self.dir, "harness.bin")
-        build = ["go", "build"] + (["-race"] if race else []) + ["-o", self.harness, "./zzverif/harness"]
+        build = ["go", "build"] + (["-race"] if race else []) + (["-tags", "noaccess"] if noshim else []) + ["-o", self.harness, "./zzverif/harness"]
         p = sh(build, cwd=self.dir, check=False)
         if p.returncode != 0 and not noshim:
             first_err = p.stdout
